@@ -215,16 +215,26 @@ def param_expansion(idx: ProgramIndex, rep: Report):
     from ..symbolic import inline, walk_paths
     rep.rule("C08-4", "in forward code a parameter is expanded to a shape built from the parameter's and the data's batch shapes (broadcast), never from the data's shape alone")
     n = 0
+    targets = []
     for cls in _families(idx):
-        fi = cls.methods.get("forward")
-        if fi is None or not fi.params:
+        if cls.methods.get("forward") is not None:
+            targets.append((cls, cls.methods["forward"]))
+    # likelihoods shape their noise in _shaped_noise_covar(base_shape, ...): the shape argument plays the role of the data
+    for cls in idx.subclasses(idx.find_class("_GaussianLikelihoodBase")) + idx.subclasses(idx.find_class("_MultitaskGaussianLikelihoodBase")):
+        m = cls.methods.get("_shaped_noise_covar")
+        if m is not None and (cls, m) not in targets:
+            targets.append((cls, m))
+    for cls, fi in targets:
+        if not fi.params:
             continue
         sn = fi.params[0]
         data_params = set(fi.params[1:])
-        regs = {name for kind, name, m, node, verdict in registrations(idx, cls) if name.isidentifier()}
-        for k in cls.repo_mro():
-            regs |= {name for kind, name, m, node, verdict in registrations(idx, k) if name.isidentifier()}
-        props = {nm for nm, m in cls.all_methods().items() if m.kind == "property"}
+        # batch-leading registrations of the class, its bases and its subclasses (a base-class method may read what a subclass registers)
+        regs = set()
+        for k in list(cls.repo_mro()) + list(idx.subclasses(cls)):
+            regs |= {name for kind, name, m, node, verdict in registrations(idx, k) if name.isidentifier() and verdict == "batch"}
+        # constrained views of batched raw parameters (self.noise for raw_noise, ...)
+        props = {nm for k in list(cls.repo_mro()) + list(idx.subclasses(cls)) for nm, m in k.all_methods().items() if m.kind == "property" and ("raw_" + nm) in regs}
         if not any(isinstance(c, ast.Call) and isinstance(c.func, ast.Attribute) and c.func.attr in ("expand", "expand_as") for c in ast.walk(fi.node)):
             continue
         seen = set()
@@ -249,9 +259,31 @@ def param_expansion(idx: ProgramIndex, rep: Report):
                     seen.add(key)
                     n += 1
                     from_data = any(isinstance(x, ast.Name) and x.id in data_params for a in shape_args for x in ast.walk(a))
-                    from_param = any(self_attrs(a) for a in shape_args) or any(isinstance(x, ast.Call) and (chain(x.func) or "").endswith("broadcast_shapes") for a in shape_args for x in ast.walk(a))
+                    def covers_param_batch(a) -> bool:
+                        """does the shape expression involve the *batch* part of a parameter-derived value's shape?"""
+                        for x in ast.walk(a):
+                            if isinstance(x, ast.Call) and (chain(x.func) or "").endswith("broadcast_shapes"):
+                                return True
+                            if isinstance(x, ast.Attribute) and x.attr == "batch_shape" and (self_attrs(x.value) or chain(x.value) == sn):
+                                return True
+                            if isinstance(x, ast.Attribute) and x.attr == "shape" and self_attrs(x.value):
+                                # X.shape used whole or sliced from the front (X.shape[:-k]); X.shape[-k:] / X.shape[-1] are event sizes
+                                par = parents.get(id(x))
+                                if isinstance(par, ast.Subscript) and par.value is x:
+                                    sl = par.slice
+                                    if isinstance(sl, ast.Slice) and sl.lower is None:
+                                        return True
+                                    continue
+                                return True
+                        return False
+                    parents = {}
+                    for a in shape_args:
+                        for x in ast.walk(a):
+                            for ch in ast.iter_child_nodes(x):
+                                parents[id(ch)] = x
+                    from_param = any(covers_param_batch(a) for a in shape_args)
                     # a value computed from both (e.g. `res = x @ self.weights`) carries the broadcast shape
-                    inst = "%s:%s.forward:%s.expand" % (cls.module.name, cls.qualname, "/".join(sorted(pattrs)))
+                    inst = "%s:%s.%s:%s.expand" % (cls.module.name, cls.qualname, fi.name, "/".join(sorted(pattrs)))
                     where = "%s:%d" % (fi.module.relpath, c.lineno)
                     ok = not from_data or from_param
                     rep.add("C08-4", inst, where, ok,
